@@ -37,7 +37,7 @@ fn main() {
         "C14" => pc01::run_c14(ctx),
         "C10" => { pc10::run(ctx); pcchan::run(ctx, "C10") }
         "C11" => { pc11::run(ctx); pcrep::run_emitted(ctx, "C11") }
-        "C17" => pc17::run(ctx),
+        "C17" => { pc17::run(ctx); pc12::kth_candidate_crash_only(ctx, "C17") }
         "C12" => pc12::run(ctx),
         "C15" => pc15::run(ctx),
         "C16" => { pc16::run(ctx); pcchan::run(ctx, "C16") }
